@@ -17,6 +17,9 @@ mod rng;
 mod sched;
 mod script;
 
+#[global_allocator]
+static GLOBAL: sched::YieldAlloc = sched::YieldAlloc;
+
 fn main() {
   if std::env::var("TYME_SIM_PANICS").is_err() {
     std::panic::set_hook(Box::new(|_| {}));
